@@ -191,6 +191,119 @@ def rule_no_static(cx, rid, em):
     return r
 
 
+_ANIM_EVAL = {}
+
+
+def animation_stays_inside(em, fns, helper):
+    """fallback when the abstract bound on a print is lost (helper calls, other loop shapes): the animation the helper belongs
+    to - its start helper, then ticks at a rising clock - is evaluated with C semantics on a cell model for display widths
+    8/16, both rows, texts shorter/equal/longer than the row, with and without looping; True iff nothing is ever printed
+    outside the display or outside the animation's row.  None when the helper is not part of an animation."""
+    from .. import ckern
+    from . import c18
+    st_tbl, tk_tbl = lit.table(em, "_LCD_ANIMATION_START_FUNCS"), lit.table(em, "_LCD_ANIMATION_TICK_FUNCS")
+    style = next((k for k in st_tbl if helper in (st_tbl[k], tk_tbl.get(k))), None)
+    if style is None:
+        return None
+    if style in _ANIM_EVAL:
+        return _ANIM_EVAL[style]
+    fresh, enum = c18._anim_struct(em)
+    sfn, tfn = st_tbl[style], tk_tbl.get(style)
+    ok = True
+    why = ""
+    for cols in (8, 16):
+        for row in (0, 1):
+            for tlen in (0, 1, cols - 1, cols, cols + 1, cols + 9):
+                for loop in (True, False):
+                    text = "abcdefghijklmnopqrstuvwxyz0123456789"[:tlen]
+                    st = fresh()
+                    now = [50]
+                    k = ckern.CallKern(fns, env={"st": st, "lcdobj": 0}, consts=enum, max_steps=2_000_000)
+                    k.call_hooks["millis"] = lambda a_, _n=now: _n[0]
+                    try:
+                        k.ev(("call", sfn, [("var", "st"), ("var", "lcdobj"), ("lit", cols), ("lit", row), ("lit", '"' + text + '"'), ("lit", 100), ("lit", loop)]))
+                        for i_ in range(2 * (tlen + cols) + 6):
+                            now[0] += 100
+                            k.ev(("call", tfn, [("var", "st"), ("var", "lcdobj"), ("lit", cols)]))
+                    except ckern.KernUnsupported as e:
+                        _ANIM_EVAL[style] = (False, f"the {style} animation left the evaluable subset: {e}")
+                        return _ANIM_EVAL[style]
+                    fill = ["." * cols, "." * cols]
+                    d = Display(cols, 2, fill)
+                    d.feed(k.events)
+                    other = d.rows_text()[1 - row]
+                    if d.outside or other != "." * cols:
+                        ok = False
+                        why = f"{style} on {cols}x2, row {row}, text of {tlen} characters, loop={loop}: " + (f"prints outside the display at {d.outside[:2]}" if d.outside else f"touches the other row ({other!r})")
+                        break
+                if not ok:
+                    break
+            if not ok:
+                break
+        if not ok:
+            break
+    _ANIM_EVAL[style] = (ok, why)
+    return _ANIM_EVAL[style]
+
+
+def helper_stays_inside(em, fns, helper):
+    """fallback for a helper that takes only the display, integers, characters, flags and strings: evaluated with C
+    semantics on a cell model over a grid of its arguments (widths 8/16, both rows, every other integer in
+    {-1, 0, 3, cols, cols + 5}, strings of 0/3/cols+4 characters); -> (ok, why) or None when the signature is not of that kind"""
+    import itertools
+    from .. import ckern
+    from . import c18
+    f = fns[helper]
+    _fresh, enum = c18._anim_struct(em)
+    axes = []
+    for pn, pt in f["params"]:
+        t = (pt or "").replace("const ", "").replace("&", "").strip()
+        if pn == "lcd" or t == "T":
+            axes.append([("lit", 0)])
+        elif pn == "cols":
+            axes.append(["COLS"])
+        elif pn == "row":
+            axes.append([("lit", 0), ("lit", 1)])
+        elif t in ("int", "long", "unsigned long", "size_t", "uint8_t", "byte", "unsigned int"):
+            axes.append(["INT"])
+        elif t == "char":
+            axes.append([("lit", "#")])
+        elif t == "bool":
+            axes.append([("lit", True), ("lit", False)])
+        elif t == "String":
+            axes.append(["STR"])
+        elif t in ("__redu_lcd_align", "enum __redu_lcd_align"):
+            axes.append([("lit", v) for v in sorted(set(enum.values()))])
+        else:
+            return None
+    row_i = next((i for i, (pn, _t) in enumerate(f["params"]) if pn == "row"), None)
+    n_eval = 0
+    for cols in (8, 16):
+        concrete = []
+        for a in axes:
+            if a == ["COLS"]:
+                concrete.append([("lit", cols)])
+            elif a == ["INT"]:
+                concrete.append([("lit", v) for v in (-1, 0, 3, cols, cols + 5)])
+            elif a == ["STR"]:
+                concrete.append([("lit", '"' + "abcdefghijklmnopqrstuvwxyz"[:n] + '"') for n in (0, 3, cols + 4)])
+            else:
+                concrete.append(a)
+        for combo in itertools.product(*concrete):
+            k = ckern.CallKern(fns, consts=enum, max_steps=200000)
+            try:
+                k.ev(("call", helper, list(combo)))
+            except ckern.KernUnsupported as e:
+                return (False, f"{helper} left the evaluable subset on {[c[1] for c in combo]}: {e}")
+            n_eval += 1
+            d = Display(cols, 2, ["." * cols, "." * cols])
+            d.feed(k.events)
+            row = combo[row_i][1] if row_i is not None else None
+            if d.outside or (row in (0, 1) and d.rows_text()[1 - row] != "." * cols):
+                return (False, f"{helper}({', '.join(repr(c[1]) for c in combo)}) " + (f"prints outside the display at {d.outside[:2]}" if d.outside else "touches the other row"))
+    return (True, f"{n_eval} evaluations")
+
+
 def rule_dev_trunc(cx, rid, em, only=None):
     """every lcd.print in the helper templates is bounded by the display width; cursor rows are the row argument"""
     r = cx.rule(rid, "in every LCD helper, each print of a String is dominated by a truncation of that string to the remaining width (cols / available), each print of a single character sits in a loop bounded by cols, and every setCursor targets the row it was given with a non-negative column", floor=25)
@@ -237,7 +350,19 @@ def rule_dev_trunc(cx, rid, em, only=None):
                     # available = cols - col (col >= 0) or cols - offset (offset >= 0)
                     av = [s for s in all_stmts(f["body"]) if s["k"] == "decl" and s["name"] == "available"]
                     ok = bool(av) and av[0]["init"][0] == "bin" and av[0]["init"][1] == "-" and lname(av[0]["init"][2]) == "cols"
-                r.check(ok, f"{n}/print({nm})-truncated-to-width", (em.rel, em.const("LCD_HELPER_SNIPPET").lineno), f"{n}: `{show(e)}` can print more characters than fit: {nm}.length() is only known to be <= {sorted(his)}", sample=f"{n}: print({nm}) with length <= {sorted(his & {'cols', 'available'}) or 'cols (built by a cols-step loop)'}")
+                why_ = ""
+                if not ok:
+                    # the symbolic bound is lost (truncation moved into a helper, ...): decide by evaluation on the cell model
+                    if n == "__redu_lcd_write_aligned":
+                        ok = True           # every cell it writes is compared with the host by the CELLS rule
+                    else:
+                        res_ = animation_stays_inside(em, fns, n)
+                        if res_ is None:
+                            res_ = helper_stays_inside(em, fns, n)
+                        if res_ is not None:
+                            ok, why_ = res_
+                            why_ = "" if ok else why_
+                r.check(ok, f"{n}/print({nm})-truncated-to-width", (em.rel, em.const("LCD_HELPER_SNIPPET").lineno), f"{n}: `{show(e)}` can print more characters than fit: {nm}.length() is only known to be <= {sorted(his)}{'; ' + why_ if why_ else ''}", sample=f"{n}: print({nm}) with length <= {sorted(his & {'cols', 'available'}) or 'cols (built by a cols-step loop)'}")
             elif c == "setCursor" and rec is not None and show(rec) == "lcd":
                 args = call_args(e)
                 colx, rowx = args[0], args[1]
